@@ -12,7 +12,7 @@ import numpy as np
 import warnings
 from sparkx.loader.OscarLoader import OscarLoader
 from sparkx.BaseStorer import BaseStorer
-from typing import Any, List, Optional, Union, Dict
+from typing import Any, List, Optional, Tuple, Union, Dict
 
 
 class Oscar(BaseStorer):
@@ -181,6 +181,15 @@ class Oscar(BaseStorer):
         self.oscar_format_: Union[str, None] = self.loader_.oscar_format()
         self.event_end_lines_: List[str] = self.loader_.event_end_lines()
         self.impact_parameters_: List[float] = self.loader_.impact_parameter()
+        # position in event_end_lines_ of the footer of every event held
+        self.event_origin_: List[int] = []
+        if (
+            self.num_output_per_event_ is not None
+            and self.num_output_per_event_.ndim == 2
+        ):
+            self.event_origin_ = [
+                int(label) for label in self.num_output_per_event_[:, 0]
+            ]
         del self.loader_
 
     def create_loader(self, OSCAR_FILE: str) -> None:  # type: ignore[override]
@@ -294,6 +303,54 @@ class Oscar(BaseStorer):
             "keep_quarks is not implemented for the Oscar class."
         )
 
+    def _keep_metadata_of_remaining_events(
+        self, events_before: List[List[Any]]
+    ) -> None:
+        """
+        Drops the footer positions and impact parameters of the events which
+        an event-level cut removed from :code:`events_before`, so that both
+        lists stay aligned with the events held.
+        """
+        remaining = {id(event) for event in self.particle_list_}
+        kept = [
+            i
+            for i, event in enumerate(events_before)
+            if id(event) in remaining
+        ]
+        if len(self.event_origin_) == len(events_before):
+            self.event_origin_ = [self.event_origin_[i] for i in kept]
+        if len(self.impact_parameters_) == len(events_before):
+            self.impact_parameters_ = [
+                self.impact_parameters_[i] for i in kept
+            ]
+
+    def multiplicity_cut(
+        self, cut_value_tuple: Tuple[Union[float, None], Union[float, None]]
+    ) -> "Oscar":
+        events_before = self.particle_list_
+        super().multiplicity_cut(cut_value_tuple)
+        self._keep_metadata_of_remaining_events(events_before)
+        return self
+
+    def lower_event_energy_cut(
+        self, minimum_event_energy: Union[int, float]
+    ) -> "Oscar":
+        events_before = self.particle_list_
+        super().lower_event_energy_cut(minimum_event_energy)
+        self._keep_metadata_of_remaining_events(events_before)
+        return self
+
+    def _event_footer(self, i: int) -> str:
+        """
+        The end line of the :code:`i`-th event held, carrying the number
+        :code:`i` under which the event is written.
+        """
+        footer = self.event_end_lines_[self.event_origin_[i]]
+        footer_split = footer.split(" ")
+        if len(footer_split) > 2:
+            footer_split[2] = str(i)
+        return " ".join(footer_split)
+
     def _update_after_merge(self, other: BaseStorer) -> None:
         """
         Updates the current instance after merging with another Oscar instance.
@@ -317,6 +374,9 @@ class Oscar(BaseStorer):
             warnings.warn(
                 "Oscar format of the merged instances do not match. Taking the left-hand side Oscar format."
             )
+        self.event_origin_ = self.event_origin_ + [
+            len(self.event_end_lines_) + origin for origin in other.event_origin_
+        ]
         self.event_end_lines_ = self.event_end_lines_ + other.event_end_lines_
 
     def oscar_format(self) -> Union[str, None]:
@@ -425,14 +485,16 @@ class Oscar(BaseStorer):
                 warnings.warn("The number of events is zero.")
             elif self.num_events_ > 1:
                 for i in range(self.num_events_):
-                    event = self.num_output_per_event_[i, 0]
+                    # the reader takes the number of events from the last
+                    # event number, so the events are numbered by position
+                    event = i
                     num_out = self.num_output_per_event_[i, 1]
                     particle_output = np.asarray(list_of_particles[i])
                     f_out.write(
                         "# event " + str(event) + " out " + str(num_out) + "\n"
                     )
                     if len(particle_output) == 0:
-                        f_out.write(self.event_end_lines_[event])
+                        f_out.write(self._event_footer(event))
                         continue
                     elif len(particle_output[0]) > 20 and (
                         self.oscar_format_ == "Oscar2013Extended"
@@ -470,7 +532,7 @@ class Oscar(BaseStorer):
                             newline="\n",
                             fmt=format_custom,
                         )
-                    f_out.write(self.event_end_lines_[event])
+                    f_out.write(self._event_footer(event))
             else:
                 event = 0
                 num_out = self.num_output_per_event_[0][1]
@@ -479,7 +541,7 @@ class Oscar(BaseStorer):
                     "# event " + str(event) + " out " + str(num_out) + "\n"
                 )
                 if len(particle_output) == 0:
-                    f_out.write(self.event_end_lines_[event])
+                    f_out.write(self._event_footer(event))
                     f_out.close()
                     return
                 elif len(particle_output[0]) > 20 and (
@@ -518,5 +580,5 @@ class Oscar(BaseStorer):
                         newline="\n",
                         fmt=format_custom,
                     )
-                f_out.write(self.event_end_lines_[event])
+                f_out.write(self._event_footer(event))
         f_out.close()
